@@ -1045,6 +1045,196 @@ def oracleC05 (lines : List String) : OResult :=
   let res := { st.res with cov := (if st.done > 5 then ["o:steps"] else []) ++ (if tick % 1000000 != 0 then ["o:subms"] else []) }
   if !res.ok && tick % 1000000 != 0 then { res with pattern := "F-C05-1" } else res
 
+/-! ### C04 -/
+
+structure C04St where
+  step : Nat := 0
+  lat : Nat := 3
+  down : List Nat := []
+  crashStep : List (Nat × Nat) := []         -- host ↦ step of its latest crash
+  tickers : List (Nat × Nat) := []           -- host ↦ live background tasks with a drop guard
+  inCrash : Option Nat := none               -- between `OP ctl crash` / `bounce` and its OBS
+  guardDrops : Nat := 0
+  starts : List (Nat × Nat) := []            -- host ↦ `EV start` seen in the current incarnation
+  stepsSince : List (Nat × Nat) := []        -- host ↦ steps since its incarnation began
+  curOp : List String := []
+  estab : List (Nat × Nat × Nat) := []       -- (peer host, peer slot, victim host) streams established
+  queuedSyn : List (String × Nat) := []      -- (connector source address, victim host): SYN delivered, not accepted
+  connLoc : List ((Nat × Nat) × String) := []  -- (host, slot) ↦ source address of its SYN
+  lateIds : List (Nat × Nat) := []           -- (victim host, datagram id) that reached the victim while it was down
+  pendingLate : List (Nat × Nat × Nat) := [] -- (victim, id, step at which it matures) sent while the victim was down
+  lateConn : List (String × Nat) := []       -- (SYN source, victim) that reached the victim while it was down
+  pendingConn : List (String × Nat × Nat) := []
+  tick : Nat := 1000000
+  lastSend : Option (Nat × Nat) := none      -- (victim, id) of the datagram just sent, waiting for its sampled delay
+  lastSyn : Option (String × Nat) := none
+  peerReads : List ((Nat × Nat) × (Nat × Bool)) := []  -- (peer,slot) ↦ reads after the deadline: (count, any terminal)
+  afterBounce : List Nat := []               -- hosts bounced after a crash (new incarnation)
+  res : OResult := {}
+
+def C04St.fail (st : C04St) (ln : Nat) (msg : String) : C04St :=
+  if st.res.ok then { st with res := { ok := false, line := ln, detail := msg } } else st
+
+def assocGet (l : List (Nat × Nat)) (k : Nat) : Nat := match l.find? (·.1 == k) with | some p => p.2 | none => 0
+def assocSet (l : List (Nat × Nat)) (k v : Nat) : List (Nat × Nat) := (l.filter (·.1 != k)) ++ [(k, v)]
+
+def c04Line (st : C04St) (ln : Nat) (l : String) : C04St :=
+  let t := toks l
+  match t with
+  | ["OP", "ctl", "step"] =>
+    { st with step := st.step + 1, curOp := t, stepsSince := st.stepsSince.map (fun p => (p.1, p.2 + 1)) }
+  | ["OP", "ctl", "crash", h] =>
+    let x := hostTok h
+    { st with curOp := t, inCrash := some x, guardDrops := 0 }
+  | ["OP", "ctl", "bounce", h] =>
+    let x := hostTok h
+    -- exactly one start per finished incarnation that ran at least one step
+    let st := if assocGet st.stepsSince x ≥ 1 && !st.down.contains x && assocGet st.starts x != 1 then
+        st.fail ln s!"h{x}: software was started {assocGet st.starts x} times in one incarnation" else st
+    { st with curOp := t, inCrash := some x, guardDrops := 0 }
+  | "OP" :: "ctl" :: _ => { st with curOp := t }
+  | "OP" :: h :: rest =>
+    let x := hostTok h
+    let st := if st.down.contains x then st.fail ln s!"code of crashed host h{x} ran: {rest}" else st
+    let st := match rest with
+      | ["spawn_ticker"] => { st with tickers := assocSet st.tickers x (assocGet st.tickers x + 1) }
+      | ["udp_send", _, dst, hex] =>
+        (match addrHost dst, msgId hex with
+         | some d, some id => if st.down.contains d then { st with lastSend := some (d, id) } else st
+         | _, _ => st)
+      | _ => st
+    { st with curOp := t }
+  | ["EV", "ticker", h] =>
+    let x := h.toNat?.getD 0
+    if st.down.contains x then st.fail ln s!"a background task of crashed host h{x} ran" else st
+  | ["EV", "guarddrop", _] => { st with guardDrops := st.guardDrops + 1 }
+  | ["EV", "start", h] =>
+    let x := h.toNat?.getD 0
+    let st := if st.down.contains x then st.fail ln s!"software of crashed host h{x} was started" else st
+    { st with starts := assocSet st.starts x (assocGet st.starts x + 1) }
+  | ["EV", "send", src, dst, proto] =>
+    let st := match addrHost src with
+      | some x => if st.down.contains x && st.inCrash != some x then st.fail ln s!"crashed host h{x} sent {proto} to {dst}" else st
+      | none => st
+    -- remember the source address of a connect's SYN
+    match st.curOp, proto with
+    | ["OP", h, "tcp_connect", s, d], "syn" =>
+      let st := { st with connLoc := st.connLoc ++ [((hostTok h, slotTok s), src)] }
+      (match addrHost d with
+       | some x => if st.down.contains x then { st with lastSyn := some (src, x) } else st
+       | none => st)
+    | _, _ => st
+  | ["ORA", "delay", v] =>
+    -- the message matures at the first step whose topology clock has passed send-time + delay
+    let d := v.toNat?.getD 0
+    let m := st.step + (d + st.tick - 1) / st.tick
+    let st := match st.lastSend with
+      | some (x, id) => { st with pendingLate := st.pendingLate ++ [(x, id, m)], lastSend := none }
+      | none => st
+    match st.lastSyn with
+    | some (src, x) => { st with pendingConn := st.pendingConn ++ [(src, x, m)], lastSyn := none }
+    | none => st
+  | ["EV", "delivered", src, dst, "syn"] =>
+    match addrHost dst with
+    | some x => { st with queuedSyn := st.queuedSyn ++ [(src, x)] }
+    | none => st
+  | "OBS" :: obs =>
+    match st.curOp with
+    | ["OP", "ctl", "crash", h] =>
+      let x := hostTok h
+      let wasUp := !st.down.contains x
+      let st := if wasUp && st.guardDrops != assocGet st.tickers x then
+          st.fail ln s!"crash of h{x} dropped {st.guardDrops} of its {assocGet st.tickers x} background tasks" else st
+      let st := if wasUp && assocGet st.stepsSince x ≥ 1 && assocGet st.starts x != 1 then
+          st.fail ln s!"h{x}: software was started {assocGet st.starts x} times in one incarnation" else st
+      { st with down := if wasUp then st.down ++ [x] else st.down, inCrash := none, curOp := [],
+                tickers := assocSet st.tickers x 0,
+                crashStep := if wasUp then assocSet st.crashStep x st.step else st.crashStep }
+    | ["OP", "ctl", "bounce", h] =>
+      let x := hostTok h
+      let wasDown := st.down.contains x
+      let st := if !wasDown && st.guardDrops != assocGet st.tickers x then
+          st.fail ln s!"bounce of h{x} dropped {st.guardDrops} of its {assocGet st.tickers x} background tasks" else st
+      -- what had matured by now reached the host while it was down
+      let late := (st.pendingLate.filter (fun q => q.1 == x && q.2.2 ≤ st.step)).map (fun q => (q.1, q.2.1))
+      let lateC := (st.pendingConn.filter (fun q => q.2.1 == x && q.2.2 ≤ st.step)).map (fun q => (q.1, q.2.1))
+      { st with down := st.down.filter (· != x), inCrash := none, curOp := [], tickers := assocSet st.tickers x 0,
+                starts := assocSet st.starts x 0, stepsSince := assocSet st.stepsSince x 0,
+                lateIds := st.lateIds ++ late, lateConn := st.lateConn ++ lateC,
+                pendingLate := st.pendingLate.filter (·.1 != x), pendingConn := st.pendingConn.filter (·.2.1 != x),
+                afterBounce := if wasDown then st.afterBounce ++ [x] else st.afterBounce }
+    | ["OP", h, "countof", a] =>
+      let _ := h
+      let x := hostTok a
+      if st.down.contains x && obs != ["ok", "streams=0", "udp=0", "tcpb=0"] then
+        st.fail ln s!"crashed host h{x} still holds table entries: {obs}" else st
+    | ["OP", h, "tcp_accept", _, s] =>
+      let x := hostTok h
+      match obs with
+      | ["ok", _, peer] =>
+        let st := if st.lateConn.contains (peer, x) then st.fail ln s!"the new incarnation of h{x} accepted a connection request ({peer}) that reached the host while it was down" else st
+        let st := { st with queuedSyn := st.queuedSyn.filter (fun q => !(q.1 == peer && q.2 == x)) }
+        match addrHost peer with
+        | some p =>
+          -- the connector's slot: the one whose SYN came from `peer`
+          (match st.connLoc.find? (·.2 == peer) with
+           | some ((ph, ps), _) => let _ := p; let _ := s; { st with estab := st.estab ++ [(ph, ps, x)] }
+           | none => st)
+        | none => st
+      | _ => st
+    | ["OP", h, "tcp_cpoll", s] =>
+      let p := hostTok h
+      let sl := slotTok s
+      -- a connector whose SYN was queued at a host that crashed afterwards must be refused, not left pending
+      match st.connLoc.find? (·.1 == (p, sl)) with
+      | some (_, loc) =>
+        (match st.queuedSyn.find? (·.1 == loc) with
+         | some (_, x) =>
+           if obs == ["pending"] && (st.down.contains x || st.afterBounce.contains x) && st.step ≥ assocGet st.crashStep x + 1
+              && st.crashStep.any (·.1 == x) then
+             st.fail ln s!"connect from h{p} queued at h{x} before its crash is still pending after the crash"
+           else st
+         | none => st)
+      | none => st
+    | ["OP", h, "tcp_read", s, n] =>
+      let p := hostTok h
+      let sl := slotTok s
+      match st.estab.find? (fun e => e.1 == p && e.2.1 == sl) with
+      | some (_, _, x) =>
+        if st.crashStep.any (·.1 == x) && st.step ≥ assocGet st.crashStep x + st.lat + 1 && n != "0" then
+          let terminal := obs == ["ok", "-"] || obs == ["err", "reset"]
+          let cur := match st.peerReads.find? (·.1 == (p, sl)) with | some q => q.2 | none => (0, false)
+          { st with peerReads := (st.peerReads.filter (·.1 != (p, sl))) ++ [((p, sl), (cur.1 + 1, cur.2 || terminal))] }
+        else st
+      | none => st
+    | ["OP", h, "udp_tryrecv", _, _] =>
+      let x := hostTok h
+      match obs with
+      | ["ok", _, _, hex] =>
+        (match msgId hex with
+         | some id => if st.lateIds.contains (x, id) then st.fail ln s!"datagram {id} that reached h{x} while it was down was handed to its new incarnation" else st
+         | none => st)
+      | _ => st
+    | ["OP", h, bind, _, _] =>
+      let x := hostTok h
+      if (bind == "udp_bind" || bind == "tcp_bind") && st.afterBounce.contains x && obs == ["err", "addrinuse"] then
+        st.fail ln s!"after crash and bounce h{x} cannot bind its port again: still in use" else st
+    | _ => st
+  | _ => st
+
+def oracleC04 (lines : List String) : OResult :=
+  let cfgT := match lines.find? (·.startsWith "CFG ") with | some l => toks l | none => []
+  let lat := kvNat cfgT "maxlat_ms" 2 / (max 1 (kvNat cfgT "tick_ms" 1)) + 2
+  let tick := (max 1 (kvNat cfgT "tick_ms" 1)) * 1000000
+  let (st, _) := lines.foldl (fun (acc : C04St × Nat) l => (c04Line acc.1 acc.2 l, acc.2 + 1)) ({ lat := lat, tick := tick }, 1)
+  let res := st.res
+  let res := if !res.ok then res else
+    match st.peerReads.find? (fun q => q.2.1 ≥ 2 && !q.2.2) with
+    | some q => { res with ok := false, detail := s!"h{q.1.1} slot {q.1.2}: reads on a stream to the crashed host stay pending (no end-of-file, no reset)" }
+    | none => res
+  { res with cov := (if st.crashStep.isEmpty then [] else ["o:crash"]) ++ (if st.estab.isEmpty then [] else ["o:estab"]) ++
+                    (if st.lateIds.isEmpty then [] else ["o:late"]) ++ (if st.afterBounce.isEmpty then [] else ["o:bounce"]) }
+
 def oracleRaw (prop : String) (lines : List String) (modelCov : List String) : OResult :=
   match prop with
   | "C02" => oracleC02 lines modelCov
@@ -1055,6 +1245,7 @@ def oracleRaw (prop : String) (lines : List String) (modelCov : List String) : O
   | "C14" => oracleC14 lines
   | "C09" => oracleC09 lines
   | "C05" => oracleC05 lines
+  | "C04" => oracleC04 lines
   | _ => {}
 
 /-- Properties whose scenario families never reach a documented panic: a panic of the
